@@ -380,7 +380,7 @@ Definition sh_gone_ok (s : sh_st) : bool :=
 Record th_st := mkTh { th_live : nat; th_zombie : nat (* ended, never joined nor detached: stack and descriptor kept *) }.
 Inductive th_op := ThConnect | ThDisconnect | ThShutdown.
 (* a COUNTER, true by construction; what justifies its two ThDisconnect rules is fragment 4f below.
-   fixed = notes/fix_C13_6.diff: a thread that ends by itself detaches itself *)
+   fixed = true: HEAD (600ddcc = notes/fix_C13_6.diff): a thread that ends by itself detaches itself; false: before it *)
 Definition th_step (fixed : bool) (s : th_st) (o : th_op) : th_st :=
   match o with
   | ThConnect => mkTh (S (th_live s)) (th_zombie s)
@@ -397,7 +397,7 @@ Fixpoint th_cycles (n : nat) : list th_op :=
    thread 1 = the client's thread: ends at ANY moment (peer disconnects) or when notified; rfbClientConnectionGone = wait for
    refCount == 0 and unlink [one critical section; fixed: the claim flag is read HERE, after the unlink]; free(cl);
    [fixed: not claimed -> pthread_detach(pthread_self())]; thread exits.
-   HEAD (fixed = false): no flag, no detach.  early = true (only to show the theorem can fail): the flag is read BEFORE the wait. *)
+   fixed = true: HEAD (600ddcc = notes/fix_C13_6.diff); fixed = false (before it): no flag, no detach.  early = true (only to show the theorem can fail): the flag is read BEFORE the wait. *)
 Record rc_st := mkRc {
   rc_listed : bool; rc_ref : nat;
   rc_claim : bool;       (* cl->clientThreadJoinedByShutdown *)
@@ -450,7 +450,7 @@ Definition rc_ok (s : rc_st) : bool :=
    ONE incoming connection.  thread 1 = listener: [accept; rfbNewClient LINKS the client] [rfbStartOnHoldClient CREATES its
    thread] then idles in select() until told to stop.  thread 0 = application in rfbShutdownServer, three actions:
    LOOP (for every listed client: rfbCloseClient; pthread_join(cl->client_thread)), STOP (rfbShutdownSockets: socketState =
-   SHUTDOWN, notify pipe), JOINL (pthread_join(listener_thread)).  HEAD: LOOP; STOP; JOINL.  fixed (notes/fix_C13_7.diff): STOP; JOINL; LOOP. *)
+   SHUTDOWN, notify pipe), JOINL (pthread_join(listener_thread)).  before 633e5d0: LOOP; STOP; JOINL.  fixed = HEAD (633e5d0 = notes/fix_C13_7.diff): STOP; JOINL; LOOP. *)
 Record ls_st := mkLs {
   ls_listed : bool; ls_thread : bool; ls_stop : bool;
   ls_badjoin : bool;     (* pthread_join of a client thread that does not exist (yet) *)
@@ -487,7 +487,7 @@ Definition ls_ok (s : ls_st) : bool := negb (ls_badjoin s) && negb (ls_late s).
    ONE client still in its handshake (states 0, 1, 2 = protocol version / security type / initialisation; 3 = RFB_NORMAL; 9 = RFB_SHUTDOWN).
    thread 0 = rfbShutdownServer: rfbCloseClient (LOCK(updateMutex); state = RFB_SHUTDOWN; UNLOCK; notify) then pthread_join.
    thread 1 = clientInput: while (state != RFB_SHUTDOWN) { select; read one handshake message; process it; STORE the next state }.
-   HEAD: the store is a plain assignment.  fixed (notes/fix_C13_8.diff): LOCK(updateMutex); if (state != RFB_SHUTDOWN) state = next; UNLOCK.
+   before 4891477: the store is a plain assignment.  fixed = HEAD (4891477 = notes/fix_C13_8.diff): LOCK(updateMutex); if (state != RFB_SHUTDOWN) state = next; UNLOCK.
    Once in RFB_NORMAL the (idle) client sends nothing more: select() only returns for the notification, which is consumed once. *)
 Record hs_st := mkHs { hs_state : nat; hs_next : nat (* the state the message being processed leads to *); hs_um : nat; hs_exited : bool; hs_pcA : nat; hs_pcI : nat }.
 Scheme Equality for hs_st.
@@ -690,7 +690,7 @@ Definition nf_setA (ref send : nat) (bad locked : bool) (pc : nat) (s : nf_st) :
   mkNf (nf_sock s) (nf_inlist s) ref send bad (nf_freed s) locked pc (nf_pcB s).
 Definition nf_setB (sock inl : bool) (send : nat) (freed : bool) (pc : nat) (s : nf_st) : nf_st :=
   mkNf sock inl (nf_ref s) send (nf_badunlock s) freed (nf_locked s) (nf_pcA s) pc.
-(* fixed = notes/fix_C13_5.diff (NOT in /repo): pass 1 also takes a reference on every client it locks and remembers it;
+(* fixed = true: HEAD (74169c1 = notes/fix_C13_5.diff): pass 1 also takes a reference on every client it locks and remembers it;
    the mutexes are released (and the references dropped) for exactly the remembered clients after pass 3 *)
 Definition nf_step (fixed : bool) (mode : nat) (t : nat) (s : nf_st) : option nf_st :=
   let seen := nf_inlist s && nf_sock s in
